@@ -6,6 +6,17 @@ from ..utils import norm_vector
 from ..geometry import convert_segment_to_line
 
 
+def _unit_vector_in_plane(normal):
+    """Unit vector that is exactly perpendicular to the unit vector normal.
+
+    pr.perpendicular_to_vector returns the z-axis for normals with a small
+    z-component, which is only approximately perpendicular.
+    """
+    perpendicular = pr.perpendicular_to_vector(normal)
+    perpendicular = perpendicular - np.dot(perpendicular, normal) * normal
+    return norm_vector(perpendicular)
+
+
 def point_to_circle(point, center, radius, normal, epsilon=1e-6):
     """Compute the shortest distance between point and circle (only line).
 
@@ -59,7 +70,7 @@ def point_to_circle(point, center, radius, normal, epsilon=1e-6):
             center + (radius / math.sqrt(sqr_len)) * diff_in_plane)
         dist = np.linalg.norm(point - closest_point_circle)
     else:  # on the line defined by center and normal of the circle
-        plane_direction = norm_vector(pr.perpendicular_to_vector(normal))
+        plane_direction = _unit_vector_in_plane(normal)
         closest_point_circle = center + radius * plane_direction
         dist = math.sqrt(radius * radius + dist_to_plane * dist_to_plane)
 
@@ -261,7 +272,7 @@ def _convert_root_to_candidate(
         closest_point_line, closest_point_circle = _line_circle_closest_points(
             old_line_point, line_direction, center, radius, normal, t)
     else:
-        u = norm_vector(pr.perpendicular_to_vector(normal))
+        u = _unit_vector_in_plane(normal)
         closest_point_line = center
         closest_point_circle = center + radius * u
     diff = closest_point_line - closest_point_circle
@@ -279,7 +290,7 @@ def _line_circle_closest_points(
     if np.linalg.norm(delta) <= 1e-14 * radius:
         # The point of the line lies on the axis of the circle (up to
         # rounding errors): all points of the circle are equidistant.
-        delta = norm_vector(pr.perpendicular_to_vector(normal))
+        delta = _unit_vector_in_plane(normal)
     else:
         delta = norm_vector(delta)
     circle_closest = center + radius * delta
@@ -303,7 +314,7 @@ def _case_line_and_normal_parallel(
         # The line is center + t * normal, so the circle center is the
         # closest point for the line and all circle points are equidistant
         # from it.
-        u = norm_vector(pr.perpendicular_to_vector(normal))
+        u = _unit_vector_in_plane(normal)
         closest_point_line = center
         closest_point_circle = center + radius * u
     return closest_point_line, closest_point_circle
